@@ -194,7 +194,7 @@ func WithConfigTimestamp(optTime OptTime) Opts {
 					if len(oc.History) <= i ||
 						oc.History[i].Author != history.Author ||
 						oc.History[i].Comment != history.Comment ||
-						!oc.History[i].Created.Equal(*history.Created) ||
+						!timePtrEqual(oc.History[i].Created, history.Created) ||
 						oc.History[i].CreatedBy != history.CreatedBy ||
 						oc.History[i].EmptyLayer != history.EmptyLayer {
 						break
@@ -208,6 +208,10 @@ func WithConfigTimestamp(optTime OptTime) Opts {
 				*oc.Created, changed = timeModOpt(*oc.Created, optTime)
 			}
 			for i := startHistory; i < len(oc.History); i++ {
+				if oc.History[i].Created == nil {
+					// the created field is optional, do not add one
+					continue
+				}
 				*oc.History[i].Created, cCur = timeModOpt(*oc.History[i].Created, optTime)
 				changed = changed || cCur
 			}
